@@ -88,7 +88,9 @@ var c07Methods = []string{"GET", "POST", "HEAD", "BREW", "get", ""}
 
 // c07RareMethods: the remaining methods the router knows; most route sets register none of them (a known
 // method without any route is served by the not-found chain like any other miss). Served on every 8th path.
-var c07RareMethods = []string{"PUT", "PATCH", "DELETE", "OPTIONS", "CONNECT", "TRACE"}
+var c07RareMethods = []string{"PUT", "PATCH", "DELETE", "OPTIONS", "CONNECT", "TRACE",
+	// unknown method tokens that, written in front of some path, read like a known method in front of a route
+	"GE", "G", "GET/a", "GET/", "GET/a/b"}
 var c07HdrSets = []map[string][]string{nil, {"X-K": {"v"}}, {"X-K": {"w"}}, {"X-K": {""}}, {"X-K": {"v", "w"}}, {"X-K": {"w", "v"}},
 	// a header name present with no value at all, and one stored under a non-canonical key (invisible to Header.Get)
 	{"X-K": nil}, {"X-K": {}}, {"x-k": {"v"}}}
@@ -308,6 +310,12 @@ func c07HasHdr(set []c07Route) bool {
 	return false
 }
 
+// c07Grid: the number of leading entries of c07Paths that come from the byte-string grid.
+var c07Grid int
+
+// c07Huge: the index of the first of the three 64 KiB paths at the end of c07Paths (strided like the grid).
+var c07Huge int
+
 func c07Paths(thorough bool) []string {
 	alpha := []string{"/", "a", "%", "2", "F", "z", "\x00", "\xff", "{", "?", "."}
 	n := 3
@@ -325,12 +333,15 @@ func c07Paths(thorough bool) []string {
 			out = append(out, p+t)
 		}
 	}
-	out = append(out, "/A", "/A/b", "/a/B", "/A/", "/Z/a") // matching is case-sensitive
+	c07Grid = len(out)                                                             // what follows is served for every method, whatever its stride
+	out = append(out, "T/a", "ET/a", "a", "a/b", "T/", "ET/a/b", "/b", "T/a/", "") // paths that complete a method token such as GE, G, GET/
+	out = append(out, "/A", "/A/b", "/a/B", "/A/", "/Z/a")                         // matching is case-sensitive
 	out = append(out, "/a/a-a/z", "/a/2-za/z", "/a/a-z", "/z/z", "/a/z/z")
 	out = append(out, `/a)(\Qb`, "/azb", "/ab", "/a)(b", `/az\Eb`, `/a\Qz\Eb`)                                                                                      // texts around the quoted expressions
 	out = append(out, "/aza", "/azza", "/azaza", "/azzza", "/a/a", "/a/aa", "/a/aaa", "/z/aaa", "/z/aaaa", "/z/aaaaa", "/z/aaa/z", "/a.a/z", "/a..a/z", "/a.z.a/z") // overlapping literals
 	out = append(out, "/a/b", "/a/b/z", "/z/a/b")                                                                                                                   // below a refused optional route
 	out = append(out, "/a/%2F/%/z%20", "/a/%/%2F/%41", "/a/%zz/a%2Fz/%2F", "/z/%2F-%-%41", "/z/%-%2F-%2F", "/a%2F/%/z/%/%61", "/%/%2F/z/%2561/%zz")                 // a malformed escape next to well-formed ones
+	c07Huge = len(out)
 	out = append(out, "/"+strings.Repeat("a/", 32*1024), strings.Repeat("/", 70000), "/a/"+strings.Repeat("z", 65536))
 	return out
 }
@@ -411,7 +422,7 @@ func c07Run(r *core.Run) {
 				if pi%256 == 0 && r.Expired() {
 					return
 				}
-				if pi%j.stride != 0 {
+				if pi%j.stride != 0 && (pi < c07Grid || pi >= c07Huge) {
 					continue
 				}
 				for _, hdr := range hdrs {
